@@ -9,6 +9,9 @@ Import ListNotations.
 Local Open Scope Z_scope.
 Local Strategy 1000 [rsfuel].
 
+Section Fuel.
+Context {rfuel : nat}.
+
 (* every visible window has a non-empty rectangle *)
 Definition vis_nonempty (t : wtree) : Prop :=
   forall n, subtree n t -> w_vis (t_info n) = true -> nonempty (w_rect (t_info n)).
@@ -56,10 +59,10 @@ Qed.
 Definition step_up (cfg : defects) (w par : wtree) (v : rectset) (a b : Z) : sregion :=
   let i := t_info w in
   let v1 := rs_translate v (top (w_rect i)) (left (w_rect i)) in
-  match rs_sub_vis (Some v1) (kids_before (w_id i) (t_kids par)) with
+  match rs_sub_vis rfuel (Some v1) (kids_before (w_id i) (t_kids par)) with
   | None => SFault
   | Some v2 =>
-    match (if d_scroll_noclip cfg then Some v2 else rs_clip v2 (selfrect (t_info par))) with
+    match (if d_scroll_noclip cfg then Some v2 else rs_clip rfuel v2 (selfrect (t_info par))) with
     | None => SFault
     | Some v3 =>
       if negb (w_vis (t_info par)) then SInvisible
@@ -68,8 +71,8 @@ Definition step_up (cfg : defects) (w par : wtree) (v : rectset) (a b : Z) : sre
   end.
 
 Lemma scroll_region_snoc2 cfg : forall l w par v a b,
-  scroll_region cfg (l ++ [w; par]) v a b =
-  match scroll_region cfg (l ++ [w]) v a b with
+  scroll_region cfg rfuel (l ++ [w; par]) v a b =
+  match scroll_region cfg rfuel (l ++ [w]) v a b with
   | SRegion v' a' b' => step_up cfg w par v' a' b'
   | SFault => SFault
   | SInvisible => SInvisible
@@ -78,21 +81,21 @@ Proof.
   induction l as [|x l IH]; intros w par v a b.
   - cbn [app scroll_region]. destruct (negb (w_vis (t_info w))); [reflexivity|].
     unfold step_up.
-    destruct (rs_sub_vis (Some (rs_translate v (top (w_rect (t_info w))) (left (w_rect (t_info w)))))
+    destruct (rs_sub_vis rfuel (Some (rs_translate v (top (w_rect (t_info w))) (left (w_rect (t_info w)))))
                          (kids_before (w_id (t_info w)) (t_kids par))) as [v2|]; [|reflexivity].
-    destruct (if d_scroll_noclip cfg then Some v2 else rs_clip v2 (selfrect (t_info par))) as [v3|];
+    destruct (if d_scroll_noclip cfg then Some v2 else rs_clip rfuel v2 (selfrect (t_info par))) as [v3|];
       reflexivity.
   - destruct l as [|y l'].
     + cbn [app scroll_region]. destruct (negb (w_vis (t_info x))); [reflexivity|].
-      destruct (rs_sub_vis (Some (rs_translate v (top (w_rect (t_info x))) (left (w_rect (t_info x)))))
+      destruct (rs_sub_vis rfuel (Some (rs_translate v (top (w_rect (t_info x))) (left (w_rect (t_info x)))))
                            (kids_before (w_id (t_info x)) (t_kids w))) as [v2|]; [|reflexivity].
-      destruct (if d_scroll_noclip cfg then Some v2 else rs_clip v2 (selfrect (t_info w))) as [v3|];
+      destruct (if d_scroll_noclip cfg then Some v2 else rs_clip rfuel v2 (selfrect (t_info w))) as [v3|];
         [|reflexivity].
       apply (IH w par).
     + cbn [app scroll_region]. destruct (negb (w_vis (t_info x))); [reflexivity|].
-      destruct (rs_sub_vis (Some (rs_translate v (top (w_rect (t_info x))) (left (w_rect (t_info x)))))
+      destruct (rs_sub_vis rfuel (Some (rs_translate v (top (w_rect (t_info x))) (left (w_rect (t_info x)))))
                            (kids_before (w_id (t_info x)) (t_kids y))) as [v2|]; [|reflexivity].
-      destruct (if d_scroll_noclip cfg then Some v2 else rs_clip v2 (selfrect (t_info y))) as [v3|];
+      destruct (if d_scroll_noclip cfg then Some v2 else rs_clip rfuel v2 (selfrect (t_info y))) as [v3|];
         [|reflexivity].
       apply (IH w par).
 Qed.
@@ -105,7 +108,7 @@ Theorem scroll_region_spec pid ch ch' t t' D :
   NoDup (t_ids t) -> vis_nonempty t ->
   forall pth v, t_path pid t = Some (t :: pth) -> Inv v ->
   (forall i, subtree (Node i ch) t -> w_id i = pid -> forall p, covered v p -> cell_in (selfrect i) p) ->
-  match scroll_region no_defects (rev (t :: pth)) v 0 0 with
+  match scroll_region no_defects rfuel (rev (t :: pth)) v 0 0 with
   | SFault => True
   | SInvisible => w_vis (t_info t) = false \/ forall q, desc pid t q = None
   | SRegion V a b =>
@@ -143,7 +146,7 @@ Proof.
                    then desc pid c (fst q - top (w_rect (t_info c)), snd q - left (w_rect (t_info c)))
                    else None).
     { intros q. apply desc_node; assumption. }
-    destruct (scroll_region no_defects (rev (c :: pthc)) v 0 0) as [| |V1 a1 b1].
+    destruct (scroll_region no_defects rfuel (rev (c :: pthc)) v 0 0) as [| |V1 a1 b1].
     + exact I.
     + right. intros q. rewrite Hdesc. destruct (vis_cover l1 q); [reflexivity|].
       destruct IH as [Hvis|Hnone].
@@ -159,11 +162,11 @@ Proof.
       rewrite Hkb.
       set (v1 := rs_translate V1 (top (w_rect (t_info c))) (left (w_rect (t_info c)))).
       assert (Hinv1 : Inv v1) by (apply rs_translate_inv; exact HinvV1).
-      destruct (rs_sub_vis (Some v1) l1) as [v2|] eqn:E2; [|exact I].
-      destruct (rs_sub_vis_exact l1 v1 v2 Hinv1) as [Hinv2 Hcov2]; [|exact E2|].
+      destruct (rs_sub_vis rfuel (Some v1) l1) as [v2|] eqn:E2; [|exact I].
+      destruct (rs_sub_vis_exact (rfuel:=rfuel) l1 v1 v2 Hinv1) as [Hinv2 Hcov2]; [|exact E2|].
       { apply (vis_nonempty_kids i (l1 ++ c :: l2)); [|exact Hvn].
         intros x Hx. apply in_or_app. left. exact Hx. }
-      destruct (rs_clip v2 (selfrect (t_info (Node i (l1 ++ c :: l2))))) as [v3|] eqn:E3; [|exact I].
+      destruct (rs_clip rfuel v2 (selfrect (t_info (Node i (l1 ++ c :: l2))))) as [v3|] eqn:E3; [|exact I].
       destruct (rs_clip_inv_any _ _ _ E3) as [Hinv3 Hcov3].
       cbn [t_info] in *.
       destruct (w_vis i) eqn:Evis; cbn [negb]; [|left; reflexivity].
@@ -186,3 +189,5 @@ Proof.
         -- unfold cell_in, selfrect, bottom, right in *; cbn [top left lines cols fst snd] in *. lia.
         -- exists p. split; [exact Hd|exact Hvp].
 Qed.
+
+End Fuel.
